@@ -52,10 +52,12 @@ def desc(x):
     if isinstance(x, ScriptedError):
         return ["exc", type(x).__name__, desc(x.tag)]
     if isinstance(x, BaseException):
-        return ["exc", type(x).__name__, str(x)[:80]]
+        return ["exc", type(x).__name__, core._scrub(str(x))[:80]]
     if isinstance(x, (tuple, list)):
         return [desc(y) for y in x]
-    if isinstance(x, (int, float, str, bool)) or x is None:
+    if isinstance(x, str):
+        return core._scrub(x) if "0x" in x else x
+    if isinstance(x, (int, float, bool)) or x is None:
         return x
     if isinstance(x, Future):
         return "<future>"
@@ -265,8 +267,25 @@ def make_base(env, base):
     raise ValueError(kind)
 
 
+class _With(object):
+    """ex.with_x(...) where the executor has the chaining methods, else Executors.with_x(ex, ...)
+    (the scripted SpyExecutor is a plain concurrent.futures.Executor)."""
+
+    def __init__(self, ex):
+        self._ex = ex
+
+    def __getattr__(self, name):
+        m = getattr(self._ex, name, None)
+        if m is not None:
+            return m
+        from more_executors import Executors
+        from functools import partial
+        return partial(getattr(Executors, name), self._ex)
+
+
 def add_layer(env, ex, layer, fns):
     """Apply one `with_*` layer.  `fns` supplies the user functions for the layer by key."""
+    ex = _With(ex)
     t = layer["t"]
     kw = {}
     if "name" in layer:
